@@ -79,17 +79,19 @@ Known(st, k) == Exists(st, CanonKey(st, k))
 ObsDiff(st, obs) == {j \in 1..Len(obs) : ~Known(st, obs[j].k) \/ Get(st, obs[j].k) # obs[j].v}
 ObsInvalid(st, obs) == {j \in 1..Len(obs) : Known(st, obs[j].k) /\ ~ValOK(Resolve(st, CanonKey(st, obs[j].k)).d, obs[j].v)}
 
+OpSig(ev) == IF ev.op = "configure" /\ \E j \in 1..Len(ev.D) : ev.D[j].r.t = "none" THEN "configure-U" ELSE ev.op
+
 RECURSIVE JudgeFrom(_, _, _)
 JudgeFrom(c, st, n) ==
     IF n > Len(c.ev) THEN OkVerdict(c)
     ELSE LET ev == c.ev[n]
              r == Step(st, ev)
-         IN IF r.ok /\ ev.raised THEN Verdict(c, "ValidCallRejected", ev.op, n, <<>>, <<>>)
-            ELSE IF ~r.ok /\ ~ev.raised THEN Verdict(c, "InvalidCallAccepted", ev.op, n, <<>>, <<>>)
+         IN IF r.ok /\ ev.raised THEN Verdict(c, "ValidCallRejected", OpSig(ev), n, <<>>, <<>>)
+            ELSE IF ~r.ok /\ ~ev.raised THEN Verdict(c, "InvalidCallAccepted", OpSig(ev), n, <<>>, <<>>)
             ELSE IF ObsDiff(r.st, ev.obs) # {}
             THEN LET j == Min(ObsDiff(r.st, ev.obs)) IN
                  Verdict(c, IF r.ok THEN "ValueAfterCall" ELSE "RejectedCallChangedValue",
-                         ev.op \o ":" \o ev.obs[j].k.s \o ":" \o ev.obs[j].k.n, n, IF Known(r.st, ev.obs[j].k) THEN <<Get(r.st, ev.obs[j].k)>> ELSE <<>>, <<ev.obs[j].v>>)
+                         OpSig(ev) \o ":" \o ev.obs[j].k.s \o ":" \o ev.obs[j].k.n, n, IF Known(r.st, ev.obs[j].k) THEN <<Get(r.st, ev.obs[j].k)>> ELSE <<>>, <<ev.obs[j].v>>)
             ELSE IF ObsInvalid(r.st, ev.obs) # {}
             THEN Verdict(c, "StoredValueInvalid", ev.op, n, <<>>, <<>>)
             ELSE JudgeFrom(c, r.st, n + 1)
